@@ -7,9 +7,9 @@ PROP = 'C13'
 
 def space(tier):
     en = K.universe(K.en_atoms(), 3, '/\\|')
-    ja = K.universe(K.ja_atoms(), 3, '/\\|')
+    ja = K.universe(K.ja_atoms(odd_names=True), 3, '/\\|')
     n2e = len(K.universe(K.en_atoms(), 2, '/\\|'))
-    n2j = len(K.universe(K.ja_atoms(), 2, '/\\|'))
+    n2j = len(K.universe(K.ja_atoms(odd_names=True), 2, '/\\|'))
     if tier == 'quick':
         U = en[:n2e + 400] + ja[:n2j + 400]
     else:
